@@ -92,6 +92,15 @@ def tpl_ids(sizeA, sizeB, named, x1, a1, x2, a2, x3, a3, x4, a4, t, _twin=False)
                 check()
             w.drain()
             check()
+            # a pool that was closed must not make a later unnamed pool collide with a live one
+            if t >= 0:
+                g = itA.gather_and_close(True)
+                w.settle()
+                if g.done():
+                    D = TaskPool()
+                    E = SimpleTaskPool(w.worker("E"))
+                    if len({str(A), str(B), str(C), str(D), str(E)}) != 5:
+                        w.fail(1106)
             # independence: both pools started from 0
             for pool in (A, B):
                 if pool._num_started and not any(x["name"] == str(pool) + "_Task-0" for x in w.W) \
